@@ -12,12 +12,29 @@ META = {
 }
 
 
+def split_known(rep, outs):
+    """a case whose only deviation is a frame reported at template line 0 is the known finding `preamble-frame-line-0`;
+    anything else (also together with such a frame) stays a violation"""
+    from vrf.core import Findings
+    known = {e["witness_class"]: e for e in Findings().all_known("C12")}
+    rest = []
+    for o in outs:
+        if "problem" not in o and o.get("line0") and "preamble-frame-line-0" in known:
+            if not any(k.startswith(known["preamble-frame-line-0"]["what"][:60]) for k in rep.known_confirmed):
+                rep.known_confirmed.append("%s [%s]" % (known["preamble-frame-line-0"]["what"], o["line0"][0][:160]))
+        elif "problem" not in o and o.get("line0"):
+            rest.append(dict(o, problem="; ".join(o["line0"][:2])))
+        else:
+            rest.append(o)
+    return rest
+
+
 def bounded(rep, tier):
     from vrf.bounded import traceback_grid as G
     paths = ("string", "file", "lookup", "moddir", "moddir-rel")
     t0 = time.time()
     jobs = [(k[0], p) for k in G.CONSTRUCTS for p in paths]
-    outs = [o for o in pool_map(G.run_fault, jobs) if o]
+    outs = split_known(rep, [o for o in pool_map(G.run_fault, jobs) if o])
     bound = "%d construct kinds (expression, multi-line expression, code block line, control lines, def/block bodies, call argument, filter, after multi-line text and continuation lines) x 5 construction paths (string, file, lookup, module directory given absolute / relative to the working directory); RichTraceback records, text/html error templates, format_exceptions" % len(G.CONSTRUCTS)
     if outs:
         for o in outs:
@@ -28,7 +45,7 @@ def bounded(rep, tier):
         rep.add(Result("C12.traceback-grid", BOUNDED_OK, klass="B", backend="native-oracle", function="mako.exceptions:RichTraceback", bound=bound, evaluations=len(jobs),
                        time_s=time.time() - t0, detail="every planted fault reported with the template's name, source and line; Python frames unchanged"))
     t1 = time.time()
-    chains = [o for o in (G.run_chain(p) for p in ("string", "file", "moddir")) if o]
+    chains = split_known(rep, [o for o in (G.run_chain(p) for p in ("string", "file", "moddir")) if o])
     if chains:
         rep.add(Result("C12.chain", VIOLATED, klass="B", backend="native-oracle", function="mako.exceptions:RichTraceback", bound="inherit + namespace + include chain x 3 paths", evaluations=3,
                        detail=chains[0]["problem"][:300], witness=chains[0], replayed=True, replay={"failures": chains}, time_s=time.time() - t1))
@@ -37,7 +54,7 @@ def bounded(rep, tier):
                        time_s=time.time() - t1, detail="each of the four templates active in one traceback is reported with its own line"))
     t3 = time.time()
     rjobs = [(k, p) for k in G.REENTRANT for p in ("string", "file", "moddir")]
-    routs = [o for o in pool_map(G.run_reentrant, rjobs) if o]
+    routs = split_known(rep, [o for o in pool_map(G.run_reentrant, rjobs) if o])
     rb = "%d re-entrant frame sequences (template A, template B, template A again) x 3 paths" % len(G.REENTRANT)
     if routs:
         rep.add(Result("C12.reentrant", VIOLATED, klass="B", backend="native-oracle", function="mako.exceptions:RichTraceback._init", bound=rb, evaluations=len(rjobs),
